@@ -516,9 +516,20 @@ def _r3(ctx: Ctx, repo: Repo, ci: ClassInfo, hf: FuncInfo, info: "HashInfo") -> 
                       f"__hash__ reads {sorted(hfields - eqf)} which {ef.where if ef else 'the inherited __eq__'} does not compare: equal objects may hash differently")
 
 
+def _never_instantiated_private_base(repo: Repo, ci: ClassInfo) -> bool:
+    """A private (underscore) class that only serves as a base: it has subclasses and nothing in the package calls it."""
+    if not ci.name.startswith("_") or len(repo.subclasses(ci.name, strict=True)) == 0:
+        return False
+    for fi in repo.all_funcs():
+        for n in walk_no_nested(fi.node):
+            if isinstance(n, ast.Call) and isinstance(n.func, ast.Name) and n.func.id == ci.name:
+                return False
+    return True
+
+
 def _concrete_pairs(repo: Repo, classes: List[ClassInfo]) -> List[Tuple[str, str]]:
     out = []
-    names = [c.name for c in classes]
+    names = [c.name for c in classes if not _never_instantiated_private_base(repo, c)]
     for a in names:
         for b in names:
             if a >= b:
